@@ -74,7 +74,7 @@ pub fn large_domain(run: &mut Run, tier: Tier) {
         run.traces_validated += 1;
         // (a) exactly 14 fill_bytes(64)
         run.transitions += 1;
-        if p0.3 != 14 || p0.2.len() != 14 || p0.2.iter().any(|c| *c != Call::FillBytes(64)) {
+        if p0.3 != 14 || p0.2.len() != 14 || p0.2.iter().any(|c| !matches!(c, Call::FillBytes(64) | Call::TryFill(64))) {
             run.violation(&format!("{}/clause-a/calls", class), &format!("RNG calls: {} draws, {:?}", p0.3, &p0.2[..p0.2.len().min(16)]), json!({"name": class}));
         }
         // (d) each draw moved by +1
